@@ -483,3 +483,44 @@ Lemma cursor_sorted_complete t id : tx_ok t ->
 Proof.
   intros T. destruct (bucket_listing t id T), (bucket_subs_listing t id T). tauto.
 Qed.
+
+(* ---------------------------------------------------------------- the merged cursor *)
+
+Definition U5 : list key := [[1]; [2]; [3]; [3; 0]; [255]].
+
+(* a cursor that reverses direction over two layers loses its place:
+   snapshot {1,3,ff}, pending {2,3\0}: First Next Next Prev reports 3\0, not 2 *)
+Lemma cursor_reverse_refuted :
+  exists db pend skip ss,
+    monotone ss = false /\
+    cur_run db pend skip cur_init ss <> spec_run [[1]; [2]; [3]; [3; 0]; [255]] None ss /\
+    db = [[1]; [3]; [255]] /\ pend = [[2]; [3; 0]] /\ ss = [CFirst; CNext; CNext; CPrev].
+Proof.
+  exists [[1]; [3]; [255]], [[2]; [3; 0]], (fun k => existsb (keqb k) [[2]; [3; 0]]),
+         [CFirst; CNext; CNext; CPrev].
+  repeat split; auto. vm_compute. discriminate.
+Qed.
+
+Lemma sweep_U5 : sweep_monotone U5 = true.
+Proof. vm_compute. reflexivity. Qed.
+
+Lemma in_zrange n x : 0 <= x < n -> In x (zrange n).
+Proof.
+  intros H. unfold zrange. apply in_map_iff. exists (Z.to_nat x). split; [lia|].
+  apply in_seq. lia.
+Qed.
+
+(* without reversal the merged cursor is the ordered walk of the merged keys:
+   every assignment of the 5 keys to snapshot / pending / removed, complete
+   forward and backward walks including exhaustion *)
+Lemma cursor_monotone_sweep md mp mr : 0 <= md < 32 -> 0 <= mp < 32 -> 0 <= mr < 32 ->
+  cursor_agrees U5 md mp mr (CFirst :: repeat CNext 6) = true /\
+  cursor_agrees U5 md mp mr (CLast :: repeat CPrev 6) = true.
+Proof.
+  intros Hd Hp Hr. pose proof sweep_U5 as S. unfold sweep_monotone in S.
+  change (2 ^ Z.of_nat (length U5)) with 32 in S.
+  rewrite forallb_forall in S. specialize (S md (in_zrange 32 md Hd)).
+  rewrite forallb_forall in S. specialize (S mp (in_zrange 32 mp Hp)).
+  rewrite forallb_forall in S. specialize (S mr (in_zrange 32 mr Hr)).
+  apply andb_true_iff in S. exact S.
+Qed.
